@@ -64,7 +64,11 @@ func (k *chk) query(routine string, minw int, call func(work []float64), untouch
 		k.fail(routine, "query-touch", "workspace query wrote beyond work[0]")
 	}
 	for i, u := range untouched {
-		k.cmpSame(routine, "operand during workspace query", u, snaps[i])
+		kind := "query-touch"
+		if k.empty {
+			kind += ":empty"
+		}
+		k.cmpSameKind(routine, kind, "operand during workspace query", u, snaps[i])
 	}
 	opt = int(work[0])
 	if float64(opt) != work[0] || opt < minw {
